@@ -1488,3 +1488,42 @@ U_FORMULA_NEUTRON_SLD = Unit("Formula.neutron_sld", F + "neutron_sld", _fwd_inpu
 U_FORMULA_XRAY_SLD = Unit("Formula.xray_sld", F + "xray_sld", _fwd_inputs, _fwd_post("xray_sld"),
                           contracts=dict(CALLEE, **{"periodictable.xsf.xray_sld": c_record_call("xray_sld")}),
                           replay={"module": "c05", "task": "replay"})
+
+
+# ==============================================================================  _hill_key (the sort key of the Hill order)
+
+def _hk_inputs(st, interp):
+    use_state(st)
+    a = ATOMS.new(st, "a")
+    e = a.expr
+    st.assume(z3.And(T.ISO(e) >= 0, T.ISO(e) < 10000, T.CHARGE(e) > -100, T.CHARGE(e) < 100))
+    return [a], {}, {"a": a}
+
+
+def _pad(n, width, plus=False):
+    """the contract's own reading of '%<width>d' / '%+<width>d': right-aligned decimal, '+' for non-negative"""
+    absn = z3.If(n < 0, -n, n)
+    sign = z3.If(n < 0, z3.StringVal("-"), z3.StringVal("+" if plus else ""))
+    txt = z3.Concat(sign, z3.IntToStr(absn))
+    used = z3.If(absn < 10, 1, z3.If(absn < 100, 2, z3.If(absn < 1000, 3, 4))) + z3.If(z3.Or(n < 0, z3.BoolVal(plus)), 1, 0)
+    out = txt
+    for k in range(1, width):
+        out = z3.If(used == width - k, z3.Concat(z3.StringVal(" " * k), txt), out)
+    return out
+
+
+def _hk_post(st, interp, C, res):
+    if res.outcome == "raise":
+        st.oblige("never-raises", False, kind="raises", info={"exc": res.exc})
+        return
+    e = C["a"].expr
+    sym = T.SYMBOL(e)
+    iso = z3.If(z3.Or(T.KIND(e) == 1, z3.And(T.KIND(e) == 2, T.KIND(T.BASE(e)) == 1)), T.ISO(e), 0)
+    want = z3.Concat(z3.If(z3.Or(sym == z3.StringVal("C"), sym == z3.StringVal("H")), z3.StringVal("0"), z3.StringVal("1")),
+                     sym, _pad(iso, 4), _pad(T.CHARGE(e), 3, plus=True))
+    st.oblige("post.key == class digit (0 for C and H, else 1) ++ symbol ++ isotope number in 4 columns (0 without isotope) ++ signed charge in 3 columns",
+              spec.eq_goal(interp, st, res.value, want))
+
+
+U_HILL_KEY = Unit("_hill_key", FORMULAS + "._hill_key", _hk_inputs, _hk_post,
+                  inline={"periodictable.core.isisotope", "periodictable.core.ision"}, replay={"module": "c19", "task": "replay"})
